@@ -22,7 +22,7 @@ type kindDef struct {
 var (
 	annKeys  = []string{"ak", "ak1", "ak1.x", "ak2", "ak3", "verif/k4"}
 	envKeys  = []string{"E", "E1", "E1_X", "E2", "E3", "PATH"}
-	mntKeys  = []string{"/m0", "/m1", "/m1/sub", "/m2", "/m2/", "/m3//x", "/m1/./sub", "/etc/m4"}
+	mntKeys  = []string{"/m0", "/m1", "/m1/sub", "/m2", "/m2/", "/m3//x", "/m1/./sub", "/etc/m4", "/m5//d/", "/m5/d/leaf"}
 	devKeys  = []string{"/dev/d0", "/dev/d1", "/dev/d1x", "/dev/d2", "/dev/d3"}
 	cdiKeys  = []string{"vendor.com/class=dev0", "vendor.com/class=dev1", "vendor.com/class=dev2", "other.org/c=d"}
 	rlimKeys = []string{"RLIMIT_NOFILE", "RLIMIT_NPROC", "RLIMIT_CORE", "RLIMIT_AS", "RLIMIT_STACK"}
@@ -322,6 +322,18 @@ func (g *mgen) genSpec() *rspec.Spec {
 		if g.chance(0.5) {
 			s.Hooks.Poststop = []rspec.Hook{g.hook().ToOCI()}
 		}
+		if g.chance(0.5) {
+			s.Hooks.CreateContainer = []rspec.Hook{g.hook().ToOCI()}
+		}
+		if g.chance(0.4) {
+			s.Hooks.StartContainer = []rspec.Hook{g.hook().ToOCI()}
+		}
+		if g.chance(0.3) {
+			s.Hooks.CreateRuntime = []rspec.Hook{g.hook().ToOCI()}
+		}
+		if g.chance(0.3) {
+			s.Hooks.Poststart = []rspec.Hook{g.hook().ToOCI()}
+		}
 	}
 	if g.chance(0.5) {
 		s.Linux.CgroupsPath = fmt.Sprintf("/orig/cg%d", g.next())
@@ -537,11 +549,36 @@ func (g *mgen) genCase(id string, o genOpts) *MCase {
 					r.Adjust.Hooks.Poststop = append(r.Adjust.Hooks.Poststop, h)
 				}
 			}
-			for _, x := range ops {
+			if r.Adjust != nil && g.chance(0.12) {
+				// decoy: the removal of the *different* item whose own name starts with '-' (wire form
+				// "--name"); it releases and removes nothing anyone set
+				k := kinds[g.rng.IntN(len(kinds))]
+				if k.removable && k.keyed {
+					g.adjRemove(r.Adjust, k.name, "-"+g.pick(k.keys))
+				}
+			}
+			// remove+set in a list family: now and then the marker comes *after* the set in the plugin's
+			// list; the documented order of effects (removals first) does not depend on it
+			late := map[int]bool{}
+			for oi, x := range ops {
+				if x.mode == 2 && (x.kind == "env" || x.kind == "mount" || x.kind == "device") && g.chance(0.3) {
+					late[oi] = true
+				}
+			}
+			for oi, x := range ops {
 				if x.mode != 0 && x.kind != "args" {
-					g.adjRemove(r.Adjust, x.kind, x.key)
+					if !late[oi] {
+						g.adjRemove(r.Adjust, x.kind, x.key)
+					}
 					setClaim(id, itemOf(x.kind, x.key), false)
 					delete(present[x.kind], x.key)
+				}
+			}
+			defer0 := func() {
+				for oi, x := range ops {
+					if late[oi] {
+						g.adjRemove(r.Adjust, x.kind, x.key)
+					}
 				}
 			}
 			for _, x := range ops {
@@ -557,6 +594,7 @@ func (g *mgen) genCase(id string, o genOpts) *MCase {
 					}
 				}
 			}
+			defer0()
 		}
 		// updates
 		nupd := 0
@@ -621,7 +659,7 @@ type sysSpec struct {
 	Path     string // create-adjust | create-3p | update-own | update-3p | stop-3p | stop-own
 	N        int    // plugins
 	A, B     int    // positions of the two claimants
-	Pattern  string // plain | remove-then-set | earlier-removes-then-sets | lone-removal-between
+	Pattern  string // plain | remove-then-set | earlier-removes-then-sets | lone-removal-between | decoy-removal-then-set | ...
 	OrigHas  bool   // original already holds the collided key
 	Innocent bool   // plugins in between do unrelated things
 }
@@ -643,6 +681,9 @@ func systematicSpecs() []sysSpec {
 					if d.b-d.a >= 2 && k.name != "args" {
 						pats = append(pats, "lone-removal-between")
 					}
+				}
+				if p == "create-adjust" && k.removable && k.keyed {
+					pats = append(pats, "decoy-removal-then-set", "decoy-after-removal")
 				}
 				if p == "create-adjust" && k.removable && k.keyed && d.n >= 3 {
 					pats = append(pats, "remove-many-then-set")
@@ -739,6 +780,19 @@ func (g *mgen) genSystematic(id string, s sysSpec) *MCase {
 	case "remove-then-set":
 		put(s.A, false, true)
 		put(s.B, true, true)
+	case "decoy-removal-then-set":
+		// B removes the item named "-key" (wire "--key"), a different item, and sets key: still a conflict
+		put(s.A, false, true)
+		rb := &c.Resp[s.B]
+		rb.Adjust = &api.ContainerAdjustment{}
+		g.adjRemove(rb.Adjust, s.Kind, "-"+key)
+		g.adjSet(rb.Adjust, s.Kind, key, false)
+	case "decoy-after-removal":
+		// A removes key; B removes the different item "-key": A's removal must survive in the combined result
+		put(s.A, true, false)
+		rb := &c.Resp[s.B]
+		rb.Adjust = &api.ContainerAdjustment{}
+		g.adjRemove(rb.Adjust, s.Kind, "-"+key)
 	case "earlier-removes-then-sets":
 		put(s.A, true, true)
 		put(s.B, false, true)
